@@ -25,3 +25,18 @@ func VerifAttrCacheStats() (currSize, entries, maxSize int) {
 	defer attributeCache.RUnlock()
 	return attributeCache.currSize, len(attributeCache.m), attributeCache.maxSize
 }
+
+// verifHook, when set, is called at the critical points of Load, Parse and
+// RegisterString (see vhook call sites). A test harness uses it as a scheduler
+// gate: the call blocks until the harness lets the goroutine proceed.
+var verifHook func(point string)
+
+// VerifSetHook installs (or, with nil, removes) the hook. Not safe to call while
+// renders are in flight.
+func VerifSetHook(h func(point string)) { verifHook = h }
+
+func vhook(point string) {
+	if h := verifHook; h != nil {
+		h(point)
+	}
+}
